@@ -6,6 +6,9 @@ int main(int argc, char** argv) {
     std::string layer = argv[1];
     if (layer == "enc") return vh::run_enc(argc - 2, argv + 2);
     if (layer == "ts") return vh::run_ts(argc - 2, argv + 2);
+    if (layer == "dec") return vh::run_dec(argc - 2, argv + 2);
+    if (layer == "exp") return vh::run_exp(argc - 2, argv + 2);
+    if (layer == "rd") return vh::run_rd(argc - 2, argv + 2);
     std::fprintf(stderr, "unknown layer %s\n", layer.c_str());
     return 2;
 }
